@@ -34,7 +34,7 @@ func (p *propC03) Assumptions() []string {
 	}
 }
 func (p *propC03) ProbeNames() []string {
-	return []string{"unheld type between held ones", "repeated file_id same type", "repeated file_id other type", "pointer slot overwritten", "unsupported type rejected", "all accessors checked"}
+	return []string{"unheld type between held ones", "repeated file_id same type", "repeated file_id other type", "repeated file_id without type field", "pointer slot overwritten", "unsupported type rejected", "all accessors checked"}
 }
 
 func (p *propC03) Prepare(seed uint64, tier string) int {
@@ -104,17 +104,30 @@ func (p *propC03) Gen(idx int) *Scenario {
 		}
 		seq++
 		if gl == 0 {
-			// repeated file_id: same type (2/3) or another supported type
+			// repeated file_id: same type (1/2), another supported type, any byte
+			// (0xFF = invalid included), or no type field at all
 			nt := t
-			if r.Chance(1, 3) {
+			withType := true
+			switch r.Intn(6) {
+			case 0:
 				nt = supportedFileTypes[r.Intn(len(supportedFileTypes))]
+			case 1:
+				nt = []byte{0xFF, 0, r.Byte()}[r.Intn(3)]
+			case 2:
+				withType = false
 			}
-			d := &DefOp{Local: byte(r.Intn(16)), Arch: g.arch(), Global: 0, Fields: [][3]int{{0, 1, 0}, {2, 2, 0x84}}}
+			d := &DefOp{Local: byte(r.Intn(16)), Arch: g.arch(), Global: 0, Fields: [][3]int{{2, 2, 0x84}}}
+			if withType {
+				d.Fields = [][3]int{{0, 1, 0}, {2, 2, 0x84}}
+			}
 			g.emitDef(d)
-			pl := make([]byte, 3)
-			pl[0] = nt
-			putN(pl[1:3], d.be(), uint64(seq))
-			g.emitData(d.Local, false, 0, pl)
+			var pl []byte
+			if withType {
+				pl = append(pl, nt)
+			}
+			sb := make([]byte, 2)
+			putN(sb, d.be(), uint64(seq))
+			g.emitData(d.Local, false, 0, append(pl, sb...))
 			continue
 		}
 		pf := seqField(gl)
@@ -209,10 +222,12 @@ func (p *propC03) Check(sc *Scenario, st *Stats) []Violation {
 		if nid == 1 {
 			continue
 		}
-		if tv, ok := parseU(m.Fields[0]); ok && byte(tv) != t {
+		if tv, ok := parseU(m.Fields[0]); !ok || byte(tv) != t {
+			// another type, the invalid type, or no type field at all
 			typeChanges = true
 			lastSwitch = i
 			st.Probe("repeated file_id other type")
+			st.ProbeIf(!ok, "repeated file_id without type field")
 		} else {
 			st.Probe("repeated file_id same type")
 		}
